@@ -23,9 +23,11 @@ def one(name):
     res={'seed':name,'property':prop,'claimed':prop in claimed,'title':meta.get('title','')}
     try:
         subprocess.check_call(['rsync','-a','--exclude','.git',REPO.rstrip('/')+'/',d+'/'])
-        r=subprocess.run(['patch','-p1','-s','-i',os.path.join(sd,'patch.diff')],cwd=d,capture_output=True,text=True)
+        r=subprocess.run(['git','apply','--unsafe-paths','--directory='+d,os.path.join(sd,'patch.diff')],cwd='/',capture_output=True,text=True)
         if r.returncode!=0:
-            res['error']='patch does not apply: '+(r.stdout+r.stderr)[-300:]; return res
+            r=subprocess.run(['patch','-p1','-s','-i',os.path.join(sd,'patch.diff')],cwd=d,capture_output=True,text=True)
+        if r.returncode!=0:
+            res['error']='patch does not apply: '+(r.stdout+r.stderr)[-300:]; res['detected_by']='error'; return res
         t0=time.time()
         g=subprocess.run([VERIF+'/check',prop,'quick'],capture_output=True,text=True,env=dict(ENV,VERIF_REPO=d),timeout=2400,cwd=VERIF)
         out=g.stdout.split('\n')
